@@ -45,6 +45,13 @@ structure Flags where
   ignoreInode : Bool      -- ChangeIgnoreInode
 deriving DecidableEq, Repr, Inhabited
 
+/-- `runBackup`: the command-line options become `ChangeIgnoreFlags`; `--ignore-inode` implies
+    `--ignore-ctime` ("on FUSE, the ctime is not reliable either") -/
+def cliFlags (optIgnoreCtime optIgnoreInode : Bool) : Flags :=
+  let f : Flags := ⟨false, false⟩
+  let f := if optIgnoreInode then { ignoreCtime := true, ignoreInode := true } else f
+  if optIgnoreCtime then { f with ignoreCtime := true } else f
+
 /-- `fileChanged(fi, node, ignoreFlags)`; called for regular files only -/
 def fileChanged {ID : Type} (fi : FileInfo) (node : Option (TNode ID)) (fl : Flags) : Bool :=
   match node with
